@@ -47,6 +47,34 @@ var _ = Service("own", func() {
 			Param("at:access_token")
 		})
 	})
+	Method("create", func() {
+		Payload(func() {
+			Token("token", String)
+			Attribute("name", String)
+			Attribute("age", Int)
+			Required("token", "name")
+		})
+		HTTP(func() {
+			POST("/create")
+			Param("age")
+			Body("name")
+		})
+	})
+	Method("create2", func() {
+		Payload(func() {
+			Token("token", String)
+			Attribute("name", String)
+			Attribute("age", Int)
+			Required("token", "name")
+		})
+		HTTP(func() {
+			POST("/create2")
+			Body(func() {
+				Attribute("name")
+				Attribute("age")
+			})
+		})
+	})
 	Method("public", func() {
 		NoSecurity()
 		HTTP(func() { GET("/public") })
